@@ -11,6 +11,9 @@ The inputs a rule enumerates are the *shapes* the function can distinguish (cons
 numbers, the character classes delimited by the literals in the code): the analysis is a case analysis over an abstract
 partition, not a sample of concrete runs."""
 import re
+import sys
+
+sys.setrecursionlimit(max(sys.getrecursionlimit(), 20000))
 
 from astlib import is_node, show, show_pat, tok_text, walk
 from rules.common import _flatp
@@ -105,6 +108,9 @@ class Cont(Exception):
 
 def fields_of(v):
     return dict(v[3]) if v[0] == "ctor" and len(v) > 3 else {}
+
+
+MAX_DEPTH = 30        # nesting of interpreted calls (a value parser recursing once per piece of a long string stays far below)
 
 
 class ProgramIndex:
@@ -740,7 +746,7 @@ class AEval(dtable.Eval):
         fn = self.funcs.get(name)
         if fn is None:
             raise Unknown("call to unknown function " + name)
-        if self.depth > 12:
+        if self.depth > MAX_DEPTH:
             raise Unknown("recursion too deep")
         params = fn.node["sig"]["inputs"]
         if len(params) != len(args):
@@ -1177,6 +1183,12 @@ class AEval(dtable.Eval):
                 return args[0]
             if last == "default" and not args and (f["path"] in ("Default::default", "std::default::Default::default", "core::default::Default::default") or re.match(r"^[A-Z]::default$", f["path"])):
                 return DEFAULT
+            if f["path"] in ("std::iter::once", "iter::once", "core::iter::once") and len(args) == 1:
+                return L(args[0])
+            if f["path"] in ("std::iter::empty", "iter::empty", "core::iter::empty") and not args:
+                return L()
+            if f["path"] in ("std::iter::repeat_n", "iter::repeat_n") and len(args) == 2 and args[1][0] == "int":
+                return L(*([args[0]] * args[1][1]))
             if last == "from" and len(args) == 1 and args[0][0] == "bool" and re.match(r"^(usize|u8|u16|u32|u64|u128|isize|i8|i16|i32|i64|i128)::from$", f["path"]):
                 return I(1 if args[0][1] else 0)
             if PROGRAM is not None and not last[:1].isupper():
@@ -1714,15 +1726,21 @@ class AEval(dtable.Eval):
                 return acc
             if m == "try_fold" and len(args) == 2:
                 acc = args[0]
+                wrap = None
                 for x in xs:
                     v2 = self.apply(args[1], [acc, x])
                     if v2[0] == "ctor" and v2[1] in ("Err", "None"):
                         return v2
                     if v2[0] == "ctor" and v2[1] in ("Ok", "Some") and v2[2]:
                         acc = v2[2][0]
+                        wrap = v2[1]
                     else:
                         raise Unknown("try_fold step")
-                return C("Ok", acc)
+                if wrap is None:
+                    # no step ran: the wrapper (Option / Result) is what the closure's success value would be
+                    body_t = _flatp(show(args[1][1]["body"])) if args[1][0] == "closure" else ""
+                    wrap = "Some" if re.search(r"\bSome\b", body_t) and not re.search(r"\bOk\b", body_t) else "Ok"
+                return C(wrap, acc)
             if m == "reduce" and len(args) == 1 and m not in self.funcs:
                 if not xs:
                     return C("None")
@@ -2270,7 +2288,7 @@ class AEval(dtable.Eval):
 
     def _call_program_fn(self, fn, args):
         """a function found through the program index (not named by the rule): same calling convention as call_fn"""
-        if self.depth > 12:
+        if self.depth > MAX_DEPTH:
             raise Unknown("recursion too deep")
         if len(fn.node["sig"]["inputs"]) != len(args):
             raise Unknown("arity of " + fn.name)
